@@ -1,4 +1,6 @@
 import Netpoll.Conn.StreamLemmas
+import Netpoll.Conn.StreamGetBytes
+import Netpoll.Gen.Consts
 /-
 C04 – a connection delivers the sender's byte stream intact (buffer/kernel hand-off part).
 -/
@@ -84,6 +86,30 @@ theorem C04_out_complete (q : Q α) (h : AllFlushed q) (rounds : List (List (Lis
 
 example : outRun ({ items := [(1, true), (2, true), (3, true)] } : Q Nat) [([[1], [2]], 1), ([[2, 3]], 0), ([[2], [], [3]], 2)]
     = some ([1, 2, 3], { items := [] }) := by decide
+
+/-- **C04_out (where the vectors of a round come from).** `connection.flush` and the poller's `outputs` take the vectors
+with `GetBytes(barrier)`, `barriercap` slices.  On an output buffer that refines the queue `q` (C01) - with ANY number of
+nodes, also more than the barrier has slices - the result has at most `barriercap` vectors, the iovec array built from
+them denotes exactly their concatenation, and that is a prefix of the flushed stream: nothing skipped, nothing out of
+order.  So for every count `k` the kernel accepts the round is a legal `outRound` (to which `C04_out_round` applies). -/
+theorem C04_getBytes_barrier (cfg : Cfg) {b : LB α} {q : Q α} (hR : R b q)
+    (hC : Contract q (.getBytes Netpoll.Gen.c_barriercap) = true) (hsmall : q.flushedBytes.length < maxInt32) :
+    ∃ b' vs, b.getBytes Netpoll.Gen.c_barriercap = some (b', .vecs vs) ∧ R b' q ∧
+      vs.length ≤ Netpoll.Gen.c_barriercap ∧ iovecBytes vs 0 = vs.flatten ∧ vs.flatten <+: q.flushedBytes ∧
+      ∀ k, k ≤ vs.flatten.length → (outRound q vs k).isSome = true := by
+  obtain ⟨b', vs, hg, hR', hl, hp, ho⟩ := outRound_of_getBytes cfg hR Netpoll.Gen.c_barriercap (by decide) hC
+  have hio : iovecBytes vs 0 = vs.flatten := by
+    rw [iovecs_prefix vs 0 (by decide)]
+    exact List.take_of_length_le (by have := hp.length_le; omega)
+  exact ⟨b', vs, hg, hR', hl, hio, hp, fun k hk => ho k (by rw [hio]; exact hk)⟩
+
+/-- more nodes than slices: five one-byte nodes before the flush node, a barrier of three - the first three nodes, in order,
+and NOT the flush node -/
+example : (({ nodes := [{ buf := [1], malloc := 1, cap := 1 }, { buf := [2], malloc := 1, cap := 1 }, { buf := [], malloc := 0, cap := 1 },
+                        { buf := [3], malloc := 1, cap := 1 }, { buf := [4], malloc := 1, cap := 1 }, { buf := [5], malloc := 1, cap := 1 },
+                        { buf := [6], malloc := 1, cap := 1 }],
+                r := 0, f := 6, w := 6, length := 6, mallocSize := 0, caches := 0, cachePeek := none } : LB Nat).getBytes 3).map (·.2)
+    = some (.vecs [[1], [2], [3]]) := by decide
 
 /-- **C04_in.** For every chunking of what the peer sent (any `readv` counts, including zero), the
 readable stream is the concatenation of the chunks in arrival order. -/
